@@ -8,6 +8,16 @@ NOT_YET = {}
 TB = ("Trusted: Lean kernel (axioms propext, Classical.choice, Quot.sound only; audited by #print axioms on every run); "
       "the hand-written model's correspondence to the code (differential, bounded by the generators whose distribution is in the evidence); ")
 CLAIMS = {
+ "C14": dict(
+  category="proof",
+  text=("Translation + Lean 4 proof: tools/xlate.py regenerates on every run the definitions table (96 games) and every dedicated module's parameters "
+        "(game_query_mod! invocations and the hand-written modules' default ports) as Lean data; theorems re-checked against it: for every game with a "
+        "module, port / protocol / engine ids / gathering settings agree (decide over the whole table); ids unique; every row within the translator's "
+        "grammar. For Valve games: if the rows agree, the generic, module and protocol-level paths are the same computation for every script and port "
+        "(equal logs and results up to game::Response::new_from_valve_response), and every event of the generic path carries the given port or the "
+        "definition's default. Tie + oracle: the three real call paths run under the same scripted servers for every Valve game of the table."),
+  note=TB + "translator validated by the differential; modules take no timeout argument (compared at retry 0); non-Valve rows: table theorems now, differential as their families land. Known finding: battalion1944 (module-only rule overrides).",
+  technique="source-to-Lean translation of the game tables + Lean 4 proof (decide over the table, path equality) + three-path differential"),
  "C15": dict(
   category="proof",
   text=("Translation + Lean 4 proof: tools/xlate.py regenerates, on every run, the accessor table of every `impl CommonResponse/CommonPlayer for T` "
